@@ -4,7 +4,7 @@
    /repo on every run, so the [eq_refl] obligations below are re-checked against what the code says now. *)
 From Coq Require Import List ZArith Bool String Permutation Sorting.Sorted.
 Import ListNotations.
-Require Import Verif.Lib.CmpOrder Verif.Model.C12_Types Verif.Gen.C12_SortKey Verif.Model.C12 Verif.Proofs.C12.
+Require Import Verif.Lib.CmpOrder Verif.Model.C12_Types Verif.Gen.C12_SortKey Verif.Model.C12 Verif.Proofs.C12 Verif.Proofs.C12_Spec.
 
 (* ---- finite obligations on the regenerated tables ---- *)
 (* every field of the descriptor is compared before the first non-descriptor field (BuildName) *)
@@ -107,3 +107,15 @@ Theorem model_print_exact :
   forall ds, cat_canon ds -> exact_output ds (print_entries gen_sort_key gen_equal_fields gen_descr_fields ds).
 Proof. exact (print_entries_exact gen_sort_key gen_equal_fields gen_descr_fields c12_key_ok c12_equal_ok c12_descr_ok). Qed.
 Print Assumptions model_print_exact.
+
+(* the executable specification the correspondence check evaluates on the implementation's output
+   (one entry per distinct descriptor, sorted set of its build names) is an exact output, and any exact
+   output shows precisely its (descriptor, build names) pairs *)
+Theorem spec_is_exact : forall ds, exact_output ds (spec_group ds).
+Proof. exact spec_group_exact. Qed.
+Print Assumptions spec_is_exact.
+
+Theorem exact_matches_spec :
+  forall ds out v, exact_output ds out -> (In v (map entry_view out) <-> In v (map entry_view (spec_group ds))).
+Proof. exact Verif.Proofs.C12_Spec.exact_matches_spec. Qed.
+Print Assumptions exact_matches_spec.
